@@ -75,10 +75,10 @@ def handleSum (l : Line) : IO Unit := do
   -- specification oracle on the implementation's outputs
   let impl : Spec.MathSpec.ImplSummary :=
     { center := bitsD l "ic", lo := bitsD l "ilo", hi := bitsD l "ihi", conf := bitsD l "iconf",
-      warn := l.getD "iwarn" != "-", pct := unhexStr (l.getD "ipct") }
+      warn := l.getD "iwarn" != "-", warnText := l.getD "iwarn", pct := unhexStr (l.getD "ipct") }
   let v := match a with
     | "exact" => Spec.MathSpec.judgeExact vals impl
-    | "nothing" => Spec.MathSpec.judgeNothing vals conf ((l.nat? "qlo").getD 0) ((l.nat? "qhi").getD 0) impl
+    | "nothing" => Spec.MathSpec.judgeNothing vals conf ((l.nat? "qlo").getD 0) ((l.nat? "qhi").getD 0) (needTab (l.getD "need")) impl
     | _ => Spec.MathSpec.judgeNormal vals conf impl
   IO.println s!"spec {id} {v}"
 
